@@ -15,6 +15,7 @@ import IcingaProofs.C11.Lemmas
 import IcingaProofs.C11.Family
 import IcingaProofs.C11.Compass
 import IcingaProofs.C11.Complete
+import IcingaProofs.C11.LogPos
 namespace Icinga.C11
 
 /-! ## Part 1 — one node -/
@@ -875,5 +876,344 @@ example : specReplay maxDepth exT 2 true (some 1) 4 true = some .replay_only_ent
     specReplay maxDepth exT 2 true (some 1) 0 true = none := by decide
 
 end Replay
+
+/-! ## Log positions: live routing, then a replay after a reconnect
+
+    `logRun` composes the three pieces of code that decide whether an event is handed to an endpoint a SECOND time (or not at
+    all): the relay step (who is sent to, who is skipped and has its log position advanced, is the event logged),
+    `SetLogPositionHandler` (positions the endpoint reports, before and after), and the timestamp / visibility tests of
+    `ReplayLog`. -/
+
+section LogPositions
+variable {T : Topo}
+
+/-- **skipped_or_sent.**  For every topology, origin, object zone and iteration order: a connected endpoint of an entitled,
+    directly related zone is either handed the event or has its log position advanced to the event's timestamp - the relay
+    step leaves no reachable endpoint it is responsible for in a state from which the event would be replayed to it. -/
+theorem skipped_or_sent (hd : Detached T) (c : Case) {fuel : Nat} {target : Ep} (hcon : concernedB fuel T c target = true)
+    (hc : T.conn c.self target = true) :
+    target ∈ (relayFuel fuel T c.self c.origin c.objZone c.log).sent ∨
+    target ∈ (relayFuel fuel T c.self c.origin c.objZone c.log).skipped := by
+  unfold concernedB at hcon
+  simp only [Bool.and_eq_true, bne_iff_ne, ne_eq, List.contains_iff_mem] at hcon
+  obtain ⟨⟨⟨⟨hne, hmem⟩, hcand⟩, hrel⟩, hent⟩ := hcon
+  have hv := candidate_relayed c hcand hrel hent
+  rcases relayZone_sent_or_skipped T c.self c.origin (getMaster T c.self) (T.zoneOf target) hmem hne hc with h | h
+  · exact Or.inl (relayZone_sub_relayFuel hd hv h)
+  · exact Or.inr (relayZone_skipped_sub_relayFuel hd hv h)
+
+/-- **served_not_replayed.**  "No endpoint processes the same event twice" across a reconnect, for every topology, origin,
+    object zone, iteration order, record and ALL sequences of positions the endpoint reports before and after the event: an
+    endpoint that was reachable when the event was routed and was deliberately sent nothing (it is served by the zone master /
+    through the endpoint its zone was entered by / it is where the event came from) is never handed the event by a later
+    replay. -/
+theorem served_not_replayed (hd : Detached T) (c : Case) {target : Ep} (pre post : List Int) (ts : Int) (ro : RecObj)
+    (hcon : concernedB maxDepth T c target = true) (hc : T.conn c.self target = true) (hsync : T.syncing c.self target = false)
+    (hns : target ∉ queued T c.self (logRun T c.self c.origin c.objZone c.log target pre post ts ro).result) :
+    (logRun T c.self c.origin c.objZone c.log target pre post ts ro).copies = 0 := by
+  have hsk : target ∈ (relay T c.self c.origin c.objZone c.log).skipped := by
+    rcases skipped_or_sent hd c hcon hc with h | h
+    · exfalso; apply hns
+      unfold queued logRun
+      exact List.mem_filter.mpr ⟨h, by simp [hsync]⟩
+    · exact h
+  have hge : ts ≤ (logRun T c.self c.origin c.objZone c.log target pre post ts ro).lpos := by
+    unfold logRun skipPos
+    simp only [List.contains_iff_mem.mpr hsk, if_true]
+    exact foldl_reportPos_ge post ts
+  unfold logRun replayCopies at hge ⊢
+  simp only at hge ⊢
+  have : decide ((post.foldl reportPos (skipPos (relay T c.self c.origin c.objZone c.log) ts target (pre.foldl reportPos 0))) < ts) = false := by
+    simp only [decide_eq_false_iff_not]; omega
+  simp [this]
+
+/-- **missed_is_replayed.**  "Records the event in its replay log instead of dropping it", followed through to the delivery: when
+    the whole zone of `target` (its zone peer, for the node's own zone) was unreachable while the event was routed and `target`
+    has not confirmed a position at or beyond the event, the replay for `target` hands the event over - exactly once. -/
+theorem missed_is_replayed (hd : Detached T) (c : Case) {target : Ep} (pre post : List Int) (ts : Int) (ro : RecObj)
+    (hts : 0 < ts) (hro : ro = .present c.objZone ∨ ro = .absent)
+    (hcon : concernedB maxDepth T c target = true) (hlog : c.log = true)
+    (hun : unreachableB T c.self (T.zoneOf target) = true) (hrep : ∀ p ∈ pre ++ post, p < ts) :
+    (logRun T c.self c.origin c.objZone c.log target pre post ts ro).copies = 1 := by
+  have hcon' := hcon
+  unfold concernedB at hcon
+  simp only [Bool.and_eq_true, bne_iff_ne, ne_eq, List.contains_iff_mem] at hcon
+  obtain ⟨⟨⟨⟨hne, hmem⟩, hcand⟩, hrel⟩, hent⟩ := hcon
+  -- the event is logged
+  have hp : (relay T c.self c.origin c.objZone c.log).persist = true := by
+    unfold relay
+    rw [hlog]
+    by_cases hg : T.isGlobal (targetZone T c.self c.objZone) = true
+    · apply logged_not_dropped_global hd hg _ hun
+      have := candidate_relayed c hcand hrel hent
+      simpa [hg] using this
+    · have hg' : T.isGlobal (targetZone T c.self c.objZone) = false := by simpa using hg
+      apply logged_not_dropped hd hg' _ hrel hun
+      unfold entitledB at hent
+      simp only [hg', Bool.false_eq_true, if_false] at hent
+      exact (isChildOfFuel_iff T maxDepth _ _).mp hent
+  -- `target` was not connected, so its position was not advanced
+  have hnc : T.conn c.self target = false := by
+    unfold unreachableB at hun
+    simp only [Bool.and_eq_true, List.all_eq_true, Bool.or_eq_true, beq_iff_eq, Bool.not_eq_true'] at hun
+    rcases hun.2 target hmem with h | h
+    · exact absurd h hne
+    · exact h
+  have hnsk : (relay T c.self c.origin c.objZone c.log).skipped.contains target = false := by
+    cases h : (relay T c.self c.origin c.objZone c.log).skipped.contains target with
+    | false => rfl
+    | true =>
+      have := (skipped_conn (List.contains_iff_mem.mp h)).2
+      rw [hnc] at this; cases this
+  have hlt : (logRun T c.self c.origin c.objZone c.log target pre post ts ro).lpos < ts := by
+    unfold logRun skipPos
+    simp only [hnsk, Bool.false_eq_true, if_false]
+    apply foldl_reportPos_lt post ts (fun p hp => hrep p (List.mem_append_right _ hp))
+    exact foldl_reportPos_lt pre ts (fun p hp => hrep p (List.mem_append_left _ hp)) 0 hts
+  -- the connecting endpoint's zone may access the object
+  have hvis : replaySends T c.self ro target = true := by
+    rcases hro with rfl | rfl
+    · unfold replaySends canAccess
+      unfold entitledB at hent
+      by_cases hg : T.isGlobal (targetZone T c.self c.objZone) = true
+      · simp [hg]
+      · simp only [hg, Bool.false_eq_true, if_false] at hent
+        simp only [Bool.or_eq_true]
+        exact Or.inr hent
+    · rfl
+  unfold logRun replayCopies at hlt ⊢
+  simp only at hlt ⊢
+  simp [hp, hvis, hlt]
+
+/-- **log_run_meets_spec.**  The whole scenario - positions reported, event relayed, positions reported, reconnect, replay -
+    satisfies the executable specification `specLog` (the predicate the check evaluates on the implementation's own
+    observations), for every topology with detached global zones, node, origin, object zone, iteration order, target endpoint,
+    all reported positions and every record that names the object (or none). -/
+theorem log_run_meets_spec (hd : Detached T) (c : Case) (target : Ep) (pre post : List Int) (ts : Int) (ro : RecObj)
+    (hts : 0 < ts) (hro : ro = .present c.objZone ∨ ro = .absent) :
+    specLog maxDepth T c target (pre ++ post) ts ((logRun T c.self c.origin c.objZone c.log target pre post ts ro).obs T c.self) = none := by
+  have h1 : ((logRun T c.self c.origin c.objZone c.log target pre post ts ro).copies > 1) = False := by
+    unfold logRun replayCopies
+    simp only [gt_iff_lt, eq_iff_iff, iff_false, Nat.not_lt]
+    split <;> omega
+  unfold specLog LogRun.obs
+  simp only [h1, if_false]
+  by_cases hcon : concernedB maxDepth T c target = true
+  · -- served and not sent: no copy
+    have h2 : (concernedB maxDepth T c target && T.conn c.self target && !T.syncing c.self target &&
+        !(queued T c.self (logRun T c.self c.origin c.objZone c.log target pre post ts ro).result).contains target &&
+        (logRun T c.self c.origin c.objZone c.log target pre post ts ro).copies != 0) = false := by
+      by_cases hall : T.conn c.self target = true ∧ T.syncing c.self target = false ∧
+          target ∉ queued T c.self (logRun T c.self c.origin c.objZone c.log target pre post ts ro).result
+      · have := served_not_replayed hd c pre post ts ro hcon hall.1 hall.2.1 hall.2.2
+        simp [this]
+      · by_cases hc : T.conn c.self target = true
+        · by_cases hs : T.syncing c.self target = false
+          · have hq : target ∈ queued T c.self (logRun T c.self c.origin c.objZone c.log target pre post ts ro).result :=
+              Classical.byContradiction (fun hn => hall ⟨hc, hs, hn⟩)
+            simp [hq]
+          · have hs' : T.syncing c.self target = true := by simpa using hs
+            simp [hs']
+        · have hc' : T.conn c.self target = false := by simpa using hc
+          simp [hc']
+    have h3 : (concernedB maxDepth T c target && c.log && unreachableB T c.self (T.zoneOf target) && c.origin.client != some target &&
+        c.origin.fromZone != some (T.zoneOf target) && (pre ++ post).all (fun p => decide (p < ts)) &&
+        (logRun T c.self c.origin c.objZone c.log target pre post ts ro).copies == 0) = false := by
+      by_cases hall : c.log = true ∧ unreachableB T c.self (T.zoneOf target) = true ∧ (pre ++ post).all (fun p => decide (p < ts)) = true
+      · have hrep : ∀ p ∈ pre ++ post, p < ts := by
+          intro p hp
+          have := List.all_eq_true.mp hall.2.2 p hp
+          simpa using this
+        have := missed_is_replayed hd c pre post ts ro hts hro hcon hall.1 hall.2.1 hrep
+        simp [this]
+      · by_cases hl : c.log = true
+        · by_cases hu : unreachableB T c.self (T.zoneOf target) = true
+          · have hr : (pre ++ post).all (fun p => decide (p < ts)) = false := by
+              cases h : (pre ++ post).all (fun p => decide (p < ts)) with
+              | false => rfl
+              | true => exact absurd ⟨hl, hu, h⟩ hall
+            simp [hr]
+          · have hu' : unreachableB T c.self (T.zoneOf target) = false := by simpa using hu
+            simp [hu']
+        · have hl' : c.log = false := by simpa using hl
+          simp [hl']
+    rw [h2, h3]; rfl
+  · have hcon' : concernedB maxDepth T c target = false := by simpa using hcon
+    simp [hcon']
+
+/-- The reference scenario of the seeded change C11-10 on the non-vacuity cluster, with the parent zone's endpoints unreachable
+    from endpoint 3: endpoint 3 (zone 1, NOT the master: 2 is) relays an event about an object of zone 2; the child-zone endpoint
+    4 is connected and deliberately skipped, the parent zone 0 is unreachable, so the event is logged.  Endpoint 4 then reports an
+    old position and reconnects: nothing is replayed to it; endpoint 0, which was unreachable, gets the event. -/
+def exTcut : Topo := { exT with conn := fun a b => a != b && !(a == 3 && b < 2) }
+
+example : (logRun exTcut 3 Origin.loc (some 2) true 4 [940] [940] 1000 (.present (some 2))).result.sent = [2] ∧
+    (logRun exTcut 3 Origin.loc (some 2) true 4 [940] [940] 1000 (.present (some 2))).result.skipped = [4, 5] ∧
+    (logRun exTcut 3 Origin.loc (some 2) true 4 [940] [940] 1000 (.present (some 2))).result.persist = true ∧
+    (logRun exTcut 3 Origin.loc (some 2) true 4 [940] [940] 1000 (.present (some 2))).lpos = 1000 ∧
+    (logRun exTcut 3 Origin.loc (some 2) true 4 [940] [940] 1000 (.present (some 2))).copies = 0 ∧
+    (logRun exTcut 3 Origin.loc (some 2) true 0 [940] [] 1000 (.present (some 2))).copies = 1 := by decide
+/-- the hypotheses of the three theorems are satisfiable -/
+example : concernedB maxDepth exTcut ⟨3, Origin.loc, some 2, true⟩ 4 = true ∧ exTcut.conn 3 4 = true ∧
+    (4 : Ep) ∉ queued exTcut 3 (logRun exTcut 3 Origin.loc (some 2) true 4 [940] [940] 1000 (.present (some 2))).result ∧
+    concernedB maxDepth exTcut ⟨3, Origin.loc, some 2, true⟩ 0 = true ∧ unreachableB exTcut 3 0 = true := by decide
+/-- the specification accepts the model's run and rejects wrong traces: a copy for the endpoint that was served on another path
+    (what the seeded change makes the code do), no copy for the one that was missed, two copies -/
+example : specLog maxDepth exTcut ⟨3, Origin.loc, some 2, true⟩ 4 [940, 940] 1000
+    ((logRun exTcut 3 Origin.loc (some 2) true 4 [940] [940] 1000 (.present (some 2))).obs exTcut 3) = none :=
+  log_run_meets_spec (T := exTcut) ⟨exT_detached.global_no_parent, exT_detached.parent_not_global⟩ ⟨3, Origin.loc, some 2, true⟩ 4 [940] [940] 1000 _ (by decide) (Or.inl rfl)
+example : specLog maxDepth exTcut ⟨3, Origin.loc, some 2, true⟩ 4 [940, 940] 1000 { sent := [2], persist := true, copies := 1 } = some .replay_not_to_served ∧
+    specLog maxDepth exTcut ⟨3, Origin.loc, some 2, true⟩ 0 [940] 1000 { sent := [2], persist := true, copies := 0 } = some .replay_reaches_missed ∧
+    specLog maxDepth exTcut ⟨3, Origin.loc, some 2, true⟩ 0 [940] 1000 { sent := [2], persist := true, copies := 2 } = some .replay_one_copy ∧
+    specLog maxDepth exTcut ⟨3, Origin.loc, some 2, true⟩ 0 [1000] 1000 { sent := [2], persist := true, copies := 0 } = none := by decide
+
+/-- **report_without_guard_counterexample.**  The monotonicity test of `SetLogPositionHandler` is necessary: with a handler that
+    stores whatever the endpoint reports, the scenario above ends with the event replayed to endpoint 4, which the specification
+    rejects. -/
+theorem report_without_guard_counterexample :
+    let r := relay exTcut 3 Origin.loc (some 2) true
+    let lposUnguarded : Int := [940].foldl (fun _ p => p) (skipPos r 1000 4 0)
+    replayCopies exTcut 3 r.persist 1000 lposUnguarded (.present (some 2)) 4 = 1 ∧
+    specLog maxDepth exTcut ⟨3, Origin.loc, some 2, true⟩ 4 [940] 1000
+      { sent := queued exTcut 3 r, persist := r.persist, copies := replayCopies exTcut 3 r.persist 1000 lposUnguarded (.present (some 2)) 4 }
+      = some .replay_not_to_served := by decide
+
+/-- **confirmed_not_replayed.**  Whatever else happens: an endpoint that has reported a position at or beyond the event's
+    timestamp after the event was routed is not handed the event by the replay. -/
+theorem confirmed_not_replayed (self : Ep) (o : Origin) (oz : Option Zone) (log : Bool) (target : Ep) (pre post : List Int) (ts : Int)
+    (ro : RecObj) {p : Int} (hp : p ∈ post) (hge : ts ≤ p) :
+    (logRun T self o oz log target pre post ts ro).copies = 0 := by
+  have h := foldl_reportPos_ge_mem post (skipPos (relay T self o oz log) ts target (pre.foldl reportPos 0)) hp
+  unfold logRun replayCopies
+  simp only
+  have : decide ((post.foldl reportPos (skipPos (relay T self o oz log) ts target (pre.foldl reportPos 0))) < ts) = false := by
+    simp only [decide_eq_false_iff_not]; omega
+  simp [this]
+
+/-- **pair_connected_no_replay_partial.**  FULL STATEMENT (what the property demands of the two members `a`, `b` of a zone
+    together): `specPair maxDepth T a b oz target ((pairRun T a b oz target ts).obs T a b) = none` - an endpoint of an entitled
+    parent / child zone is handed the event at most once by the two of them, live or replayed.  The code violates it when
+    `target` was NOT reachable from one of the two while the event was routed: that node logs the event although its peer
+    serves (or will serve) the zone, and replays it when `target` connects (`pair_double_replay_counterexample`, F-C11d).
+    Proved with the hypothesis that `target` was reachable from both: then neither of the two replays anything to it, for every
+    topology, iteration order and object zone - what `target` gets is what the live routing handed it. -/
+theorem pair_connected_no_replay_partial (hd : Detached T) (a b : Ep) (oz : Zone) (target : Ep) (ts : Int)
+    (hca : concernedB maxDepth T ⟨a, Origin.loc, some oz, true⟩ target = true)
+    (hcb : concernedB maxDepth T ⟨b, Origin.loc, some oz, true⟩ target = true)
+    (ha : T.conn a target = true) (hb : T.conn b target = true)
+    (hsa : T.syncing a target = false) (hsb : T.syncing b target = false) :
+    (pairRun T a b oz target ts).a.copies = 0 ∧ ∀ l, (pairRun T a b oz target ts).b = some l → l.copies = 0 := by
+  have key : ∀ (s : Ep) (o : Origin), concernedB maxDepth T ⟨s, o, some oz, true⟩ target = true → T.conn s target = true →
+      T.syncing s target = false →
+      (logRun T s o (some oz) true target [] (confirm T s (relay T s o (some oz) true) target ts) ts (.present (some oz))).copies = 0 := by
+    intro s o hc hcn hsy
+    by_cases hq : target ∈ queued T s (relay T s o (some oz) true)
+    · apply confirmed_not_replayed (p := ts) _ _ _ _ _ _ _ _ _ _ (Int.le_refl _)
+      unfold confirm; simp [hq]
+    · have hconf : confirm T s (relay T s o (some oz) true) target ts = [] := by unfold confirm; simp [hq]
+      rw [hconf]
+      exact served_not_replayed hd ⟨s, o, some oz, true⟩ [] [] ts _ hc hcn hsy hq
+  have hcb' : ∀ o, concernedB maxDepth T ⟨b, o, some oz, true⟩ target = true := fun o => by
+    unfold concernedB at hcb ⊢; exact hcb
+  constructor
+  · unfold pairRun
+    simp only
+    split <;> exact key a Origin.loc hca ha hsa
+  · intro l hl
+    unfold pairRun at hl
+    simp only at hl
+    split at hl
+    · cases hl
+      exact key b _ (hcb' _) hb hsb
+    · cases hl
+
+/-- **pair_double_replay_counterexample** (F-C11d).  The two members 2, 3 of zone 1 see each other; the child-zone endpoint 4 is
+    connected to neither while endpoint 2 (the zone master) relays an event about an object of zone 2.  Endpoint 2 logs it (zone 2 is
+    unreachable) and hands it to its peer 3, which - although not the zone master - logs it too.  When endpoint 4 connects to both,
+    both replay: it is handed the event twice. -/
+def exTpair : Topo := { exT with conn := fun a b => a != b && a != 4 && b != 4 && a != 5 && b != 5 }
+
+theorem pair_double_replay_counterexample :
+    (pairRun exTpair 2 3 2 4 1000).a.copies = 1 ∧ ((pairRun exTpair 2 3 2 4 1000).b.map (·.copies)) = some 1 ∧
+    getMaster exTpair 3 = some 2 ∧
+    specPair maxDepth exTpair 2 3 2 4 ((pairRun exTpair 2 3 2 4 1000).obs exTpair 2 3) = some .pair_one_copy := by decide
+
+/-- hypotheses of `pair_connected_no_replay_partial` satisfiable and the conclusion not trivial: with everybody connected endpoint 4
+    gets the event live from the master 2 (and confirms it), nothing is replayed, and the specification accepts the run; it rejects
+    a run in which both members send -/
+example : concernedB maxDepth exT ⟨2, Origin.loc, some 2, true⟩ 4 = true ∧ concernedB maxDepth exT ⟨3, Origin.loc, some 2, true⟩ 4 = true ∧
+    exT.conn 2 4 = true ∧ exT.conn 3 4 = true ∧
+    ((pairRun exT 2 3 2 4 1000).obs exT 2 3).copies 4 = 1 ∧
+    specPair maxDepth exT 2 3 2 4 ((pairRun exT 2 3 2 4 1000).obs exT 2 3) = none ∧
+    specPair maxDepth exT 2 3 2 4 { sentA := [4, 3, 0], replayA := 0, sentB := [4], replayB := 0 } = some .pair_one_copy := by decide
+
+/-- **pair_live_one_sender.**  "Only the current zone master forwards across zone borders", for the two members of a zone
+    together: two nodes of one zone that have the same view of it (in particular two peers that see each other) never BOTH hand an
+    event to an endpoint of a foreign zone - whatever origins, object zones and iteration orders. -/
+theorem pair_live_one_sender {a b target : Ep} {oa ob : Origin} {za zb : Option Zone} {la lb : Bool} {fa fb : Nat}
+    (hza : ∀ z e, e ∈ T.eps a z → T.zoneOf e = z) (hzb : ∀ z e, e ∈ T.eps b z → T.zoneOf e = z)
+    (hab : a ≠ b) (hfa : T.zoneOf target ≠ T.zoneOf a) (hfb : T.zoneOf target ≠ T.zoneOf b)
+    (hmem : ∀ x, x ∈ T.eps a (T.zoneOf a) ↔ x ∈ T.eps b (T.zoneOf b))
+    (hview : ∀ x ∈ T.eps a (T.zoneOf a), (T.conn a x || x == a) = (T.conn b x || x == b))
+    (ha : target ∈ (relayFuel fa T a oa za la).sent) (hb : target ∈ (relayFuel fb T b ob zb lb).sent) : False := by
+  have master_of : ∀ {s : Ep} {o : Origin} {z : Option Zone} {l : Bool} {f : Nat}, (∀ z e, e ∈ T.eps s z → T.zoneOf e = z) →
+      T.zoneOf target ≠ T.zoneOf s → target ∈ (relayFuel f T s o z l).sent → getMaster T s = some s := by
+    intro s o z l f hz hf h
+    apply Classical.byContradiction
+    intro hn
+    have hm := only_master_crosses hn h
+    have := hz _ _ (master_in_own_zone hm)
+    exact hf this
+  have h1 := master_of hza hfa ha
+  have h2 := master_of hzb hfb hb
+  have := same_master hmem hview
+  rw [h1, h2] at this
+  exact hab (Option.some.inj this)
+
+/-- hypotheses satisfiable: on the non-vacuity cluster the members 2, 3 of zone 1 see each other; the master 2 hands the event to
+    endpoint 4 of the child zone, its peer 3 (which got the event from 2) does not -/
+example : (4 : Ep) ∈ (relay exT 2 Origin.loc (some 2) true).sent ∧ (4 : Ep) ∉ (relay exT 3 (originOf exT ⟨3, 2, none⟩) (some 2) true).sent ∧
+    (∀ x ∈ exT.eps 2 (exT.zoneOf 2), (exT.conn 2 x || x == 2) = (exT.conn 3 x || x == 3)) := by decide
+
+end LogPositions
+
+/-! ## `SyncSendMessage`: one copy per endpoint, on the newest connection -/
+
+section SyncSend
+
+/-- **sync_send_one_copy.**  For every set of connections of an endpoint that is not `syncing` whose creation timestamps are
+    positive and pairwise different (two connections to one endpoint made at the very same instant of `Utility::GetTime()` are
+    the only exception, see the counterexample): the message is queued on exactly ONE connection, and that is the newest - the
+    clause `one_copy_per_endpoint` of the specification (`extraCopies = 0`). -/
+theorem sync_send_one_copy (stamps : List Nat) (hne : stamps ≠ []) (hpos : ∀ x ∈ stamps, 0 < x) (hnd : stamps.Nodup) :
+    syncSend false stamps = [maxStamp stamps] ∧ maxStamp stamps ∈ stamps ∧ ∀ x ∈ stamps, x ≤ maxStamp stamps := by
+  have hmem : maxStamp stamps ∈ stamps := by
+    unfold maxStamp
+    rcases foldl_max_mem stamps 0 with h | h
+    · exfalso
+      cases stamps with
+      | nil => exact hne rfl
+      | cons x xs =>
+        have h1 := foldl_max_ge_mem (x :: xs) 0 x List.mem_cons_self
+        have h2 := hpos x List.mem_cons_self
+        omega
+    · exact h
+  refine ⟨?_, hmem, fun x hx => foldl_max_ge_mem stamps 0 x hx⟩
+  unfold syncSend
+  simp only [Bool.false_eq_true, if_false]
+  exact filter_eq_singleton stamps hnd hmem
+
+/-- **sync_send_syncing_nothing.**  Nothing is queued for an endpoint the node is replaying its log to. -/
+theorem sync_send_syncing_nothing (stamps : List Nat) : syncSend true stamps = [] := rfl
+
+/-- **sync_send_equal_stamps_counterexample.**  The hypothesis "pairwise different timestamps" is necessary: the test
+    `client->GetTimestamp() != maxTs` lets the message through on every connection that ties for the maximum. -/
+theorem sync_send_equal_stamps_counterexample : (syncSend false [7, 7]).length = 2 := by decide
+
+/-- an older and a newer connection, in either order of `GetClients()`: the newer one only -/
+example : syncSend false [5, 9] = [9] ∧ syncSend false [9, 5] = [9] ∧ syncSend false [9, 5, 7] = [9] ∧ syncSend true [5, 9] = [] := by decide
+example : syncSend false [5, 9] = [maxStamp [5, 9]] := (sync_send_one_copy [5, 9] (by decide) (by decide) (by decide)).1
+
+end SyncSend
 
 end Icinga.C11
